@@ -4,6 +4,7 @@
 # Copyright (c) 2015-2020, Ilya Etingof <etingof@gmail.com>
 # License: http://snmplabs.com/pysmi/license.html
 #
+import errno
 import os
 import sys
 import time
@@ -67,29 +68,54 @@ class FileReader(AbstractReader):
 
     @staticmethod
     def loadIndex(indexFile):
-        mibIndex = {}
-        if os.path.exists(indexFile):
-            try:
-                f = open(indexFile)
-                mibIndex = dict(
-                    [x.split()[:2] for x in f.readlines()]
-                )
-                f.close()
-                debug.logger & debug.flagReader and debug.logger(
-                    'loaded MIB index map from %s file, %s entries' % (indexFile, len(mibIndex)))
+        """Read the MIB name to file name map.
 
-            except IOError:
-                pass
+        Returns the map (empty if there is no index file) or None if the
+        index file is there but could not be read this time.
+        """
+        mibIndex = {}
+
+        try:
+            f = open(indexFile)
+
+        except IOError:
+            if sys.exc_info()[1].errno == errno.ENOENT:
+                return mibIndex
+
+            return None
+
+        try:
+            mibIndex = dict(
+                [x.split()[:2] for x in f.readlines()]
+            )
+
+        except IOError:
+            return None
+
+        finally:
+            f.close()
+
+        debug.logger & debug.flagReader and debug.logger(
+            'loaded MIB index map from %s file, %s entries' % (indexFile, len(mibIndex)))
 
         return mibIndex
 
     def getMibVariants(self, mibname, **options):
         if self.useIndexFile:
             if not self._indexLoaded:
-                self._mibIndex = self.loadIndex(
+                mibIndex = self.loadIndex(
                     os.path.join(self._path, self.indexFile)
                 )
-                self._indexLoaded = True
+
+                if mibIndex is None:
+                    # a read error is not the absence of an index: do
+                    # without it for now, try again on the next look-up
+                    mibIndex = {}
+
+                else:
+                    self._indexLoaded = True
+
+                self._mibIndex = mibIndex
 
             if mibname in self._mibIndex:
                 debug.logger & debug.flagReader and debug.logger(
